@@ -1,4 +1,4 @@
-\* constants N, Family, RngGuard, StreamGuard, OldMutated, Mutant are supplied by lib/checks/c11.py
+\* constants N, Family, RngGuard, StreamGuard, OldMutated, DefaultShared, Mutant are supplied by lib/checks/c11.py
 SPECIFICATION Spec
 INVARIANTS TypeOK NoRace
 CHECK_DEADLOCK FALSE
